@@ -45,16 +45,16 @@ Definition ty_s (t : ty) : string := (if uns t then "unsigned " else "") ++ ity_
 Fixpoint sep_by (sep : string) (l : list string) : string :=
   match l with [] => "" | [x] => x | x :: r => x ++ sep ++ sep_by sep r end.
 
-(* "( ident [" is taken for a cast to an array type by the parser (it reports and backtracks, and
-   may crash later): a parenthesised expression never starts with an array reference *)
-Definition lead (e : expr) : string := match e with EIdx _ _ => "0 + " | _ => "" end.
+(* (historical) before the fix: commits 34a2124 / 7c216d9 a parenthesised expression starting with an
+   array reference was tried as a cast and a negative element as left operand crashed; [lead] used to
+   insert "0 + " there and is now empty *)
+Definition lead (e : expr) : string := "".
 
 Fixpoint pe (e : expr) : string :=
   match e with
   | ENum z => lit z
   | EVar x => var x
   | EUn o a => "( " ++ unop_s o ++ " " ++ pe a ++ " )"
-  | EBin Gt a b => "( " ++ lead a ++ pe a ++ " > 0 + " ++ pe b ++ " )"
   | EBin o a b => "( " ++ lead a ++ pe a ++ " " ++ binop_s o ++ " " ++ pe b ++ " )"
   | EAnd a b => "( " ++ lead a ++ pe a ++ " && " ++ pe b ++ " )"
   | EOr a b => "( " ++ lead a ++ pe a ++ " || " ++ pe b ++ " )"
@@ -139,18 +139,32 @@ Definition print_program (p : program) : string :=
   "void main() {" ++ nl ++ concat "" (map (fun s => "  " ++ ps 40 s ++ nl) (pmain p)) ++ "}" ++ nl.
 
 (* ---------- running a whole program ---------- *)
-Definition init_globals (gs : list gdecl) : scope :=
-  rev (map (fun g => (gname g, {| ety := gty g; econst := gcst g; edims := gdims g;
-                                 evals := pad (size_of (gdims g)) (ginit g) |})) gs).
+(* global initialisers are stored like any other value: converted to the declared type, a value
+   out of range ends the program before anything runs *)
+Fixpoint init_globals (gs : list gdecl) (acc : scope) : option scope :=
+  match gs with
+  | [] => Some acc
+  | g :: r => match coerce_all (gty g) (ginit g) with
+              | Val vs => init_globals r ((gname g, {| ety := gty g; econst := gcst g; edims := gdims g;
+                                                        evals := pad (size_of (gdims g)) vs |}) :: acc)
+              | _ => None
+              end
+  end.
 
 Definition main_id : ident := 0%nat.
-Definition init_state (p : program) : state :=
-  {| sglob := init_globals (pglobals p); sframes := [ {| ffn := main_id; fscopes := [[]] |} ]; sstat := []; sout := [] |}.
+Definition state_with (g : scope) : state :=
+  {| sglob := g; sframes := [ {| ffn := main_id; fscopes := [[]] |} ]; sstat := []; sout := [] |}.
+Definition init_state (p : program) : option state :=
+  match init_globals (pglobals p) [] with Some g => Some (state_with g) | None => None end.
 
 Inductive outcome := Finished | Failed (e : err).
 Definition run (fuel : nat) (p : program) : list oitem * outcome :=
-  let '(c, s) := exec_list (exec (pfuncs p) fuel) (pmain p) (init_state p) in
-  (rev (sout s), match c with Fail e => Failed e | _ => Finished end).
+  match init_state p with
+  | None => ([], Failed ERange)
+  | Some s0 =>
+      let '(c, s) := exec_list (exec (pfuncs p) fuel) (pmain p) s0 in
+      (rev (sout s), match c with Fail e => Failed e | _ => Finished end)
+  end.
 
 (* stdout as text *)
 Fixpoint render (o : list oitem) : string :=
